@@ -226,6 +226,14 @@ class World:
     def sleep(self, dt):
         self.sched.sleep(dt)
 
+    def wait_until(self, pred, timeout=None):
+        """block the calling managed thread until pred() holds; re-evaluated
+        whenever the network state changes"""
+        while not pred():
+            if self.sched.block(("client-wait", -1), timeout):
+                return pred()
+        return True
+
     def Event(self):
         return shim.Event()
 
